@@ -12,7 +12,12 @@ ID = "C02"
 PROPS_FILE = "Props/C02.v"
 GEN_DEPS: List[str] = []
 ALLOWED_AXIOMS: List[str] = []
-THEOREMS: Dict[str, str] = {}
+THEOREMS: Dict[str, str] = {
+    "C02_tiling": "full",
+    "C02_tiling_node": "full",
+    "C02_example_wf": "example",
+    "C02_example_table": "example",
+}
 TRUSTED = [
     "Coq 8.16.1 kernel (coqc; vm_compute for the correspondence only)",
     "Model/Table.v + Model/Layout.v are hand-written transcriptions of renderer/table.py and "
